@@ -127,7 +127,7 @@ theorem exactlyOnce_answer (s : S) (a : Ans) (h : ExactlyOnce s) : ExactlyOnce (
 theorem exactlyOnce_step (s s' : S) (h : ExactlyOnce s) (st : Step s s') : ExactlyOnce s' := by
   cases st with
   | useNeg => exact exactlyOnce_answer s _ h
-  | useZero l hl =>
+  | useZero l hl h0 h1 =>
     intro id
     have hid := h id
     unfold ids at hid ⊢
